@@ -1,4 +1,4 @@
-import WacProofs.Lemmas.AggAll
+import WacProofs.Lemmas.AggAllTotal
 /-
   C09 — merged import requirements satisfy every contributor, order-independently: GENERAL theorems
   about the executable model `Wac.aggregate` / `Wac.aggregateAll` (WacModel/Aggregate.lean, the
@@ -61,7 +61,7 @@ theorem frag_invariant (cs : List Req) (hf : fragB cs = true) (A : AggState)
         rw [hmap]; exact hpw
       exact (List.pairwise_map (f := fun p : Req × Forest => p.1) (R := fun a b : Req => a.2.1.uid ≠ b.2.1.uid)).1 this)
     (by rw [hmap]; exact h)
-  simpa using this
+  simpa using this.1
 
 theorem mem_withForests {cs : List Req} (hall : ∀ r, r ∈ cs → (flatForest r).isSome = true) {r : Req} (hr : r ∈ cs) :
     ∃ G, (r, G) ∈ withForests cs ∧ flatForest r = some G := by
@@ -371,6 +371,94 @@ example : fragB [rA] = true ∧ Sane cB ∧ (∃ A, aggregateAll [rA] Agg.empty 
     ((aggregateAll [rA] Agg.empty).toOption.bind fun A =>
       (mergeInterface (aggFuel A.agg cB) 0 cB 0 A).toOption.map fun _ => ()) = some () :=
   ⟨by decide +kernel, sane_of_saneB (by decide +kernel), ok_of_isSome (by decide +kernel), by decide +kernel⟩
+
+/-! ### totality, `fails_iff_incompatible`, and the full order-independence theorems -/
+
+/-- the state reached has the configuration it started with, and satisfies the invariant -/
+theorem frag_invariant_cfg (cs : List Req) (hf : fragB cs = true) (A : AggState)
+    (h : aggregateAll cs Agg.empty = .ok A) : A.cfg = Agg.empty.cfg := by
+  obtain ⟨hall, hpw⟩ := fragB_spec hf
+  have hmap := withForests_map (fun r hr => (hall r hr).1)
+  exact (ginv_all (W := collsOf cs hpw) (withForests cs) [] Agg.empty A
+    (ginv_empty _ (by rintro C ⟨r, hr, rfl⟩; exact (hall r hr).2))
+    (by
+      intro p hp
+      obtain ⟨hm, hfp⟩ := withForests_mem hp
+      exact ⟨(flatForest_spec hfp).1, p.1, hm, rfl⟩)
+    (by intro p _ q hq; cases hq)
+    (by
+      have : ((withForests cs).map (·.1)).Pairwise (fun a b : Req => a.2.1.uid ≠ b.2.1.uid) := by
+        rw [hmap]; exact hpw
+      exact (List.pairwise_map (f := fun p : Req × Forest => p.1) (R := fun a b : Req => a.2.1.uid ≠ b.2.1.uid)).1 this)
+    (by rw [hmap]; exact h)).2
+
+/-- **`fails_iff_incompatible`** (fragment, full): aggregation never panics; it succeeds exactly
+when every two semver-compatible requirements give every export name they share the same type
+(`CompatAll`, an order-independent condition); otherwise it returns an error. -/
+theorem fails_iff_incompatible (cs : List Req) (hf : fragB cs = true) :
+    ((∃ A, aggregateAll cs Agg.empty = .ok A) ↔ CompatAll (withForests cs)) ∧
+    (∀ e, aggregateAll cs Agg.empty = .error e → ∃ m, e = .err m) := by
+  obtain ⟨hall, hpw⟩ := fragB_spec hf
+  have hmap := withForests_map (fun r hr => (hall r hr).1)
+  have := aggregateAll_total (W := collsOf cs hpw) (withForests cs) [] Agg.empty
+    (ginv_empty _ (by rintro C ⟨r, hr, rfl⟩; exact (hall r hr).2)) rfl
+    (by
+      intro p hp
+      obtain ⟨hm, hfp⟩ := withForests_mem hp
+      exact ⟨(flatForest_spec hfp).1, p.1, hm, rfl⟩)
+    (by intro p _ q hq; cases hq)
+    (by
+      have : ((withForests cs).map (·.1)).Pairwise (fun a b : Req => a.2.1.uid ≠ b.2.1.uid) := by
+        rw [hmap]; exact hpw
+      exact (List.pairwise_map (f := fun p : Req × Forest => p.1) (R := fun a b : Req => a.2.1.uid ≠ b.2.1.uid)).1 this)
+  rw [hmap, compatFrom_nil_iff] at this
+  exact this
+
+/-- two requirement lists that disagree: `f` is `func(x: list<u8>) -> string` in `cA` but `func()` in `cD` -/
+def cD : Types := { uid := 4, funcs := [{}], interfaces := [{ exports := [(['f'], .func 0)] }] }
+def rD : Req := ("a:b/c@0.2.3".toList, cD, .instance 0)
+
+/-- both directions are exercised: a compatible list succeeds, an incompatible one fails with an
+error (not a panic), in every position of the offending requirement -/
+example : fragB exList = true ∧ fragB [rA, rD] = true ∧
+    (aggregateAll exList Agg.empty).toOption.isSome = true ∧
+    (aggregateAll [rA, rD] Agg.empty).toOption.isSome = false ∧
+    (aggregateAll [rD, rA] Agg.empty).toOption.isSome = false := by decide +kernel
+
+/-- **`agg_perm`** (fragment, FULL): for a permutation of the contributors the verdict is the same
+(`Ok` in one order iff `Ok` in the other; an error is never a panic) and, when it is `Ok`, every
+contributor's merged import is the same type up to the order of its exports.  (The order of
+`imports` and the error text may differ, as the property statement allows.) -/
+theorem agg_perm (cs cs' : List Req) (hp : cs.Perm cs') (hf : fragB cs = true) :
+    ((∃ A, aggregateAll cs Agg.empty = .ok A) ↔ (∃ A', aggregateAll cs' Agg.empty = .ok A')) ∧
+    (∀ A A', aggregateAll cs Agg.empty = .ok A → aggregateAll cs' Agg.empty = .ok A' →
+      ∀ r, r ∈ cs → ∀ m m', MergedTree A r.1 m → MergedTree A' r.1 m' → sub m m' = true ∧ sub m' m = true) := by
+  have hf' := fragB_perm hp hf
+  refine ⟨?_, fun A A' h h' r hr m m' hm hm' => agg_perm_partial cs cs' hp hf A A' h h' r hr m m' hm hm'⟩
+  rw [(fails_iff_incompatible cs hf).1, (fails_iff_incompatible cs' hf').1]
+  have hmem : ∀ p, p ∈ withForests cs ↔ p ∈ withForests cs' := fun p => (hp.filterMap _).mem_iff
+  exact ⟨fun h p q hp' hq' hc => h p q ((hmem p).2 hp') ((hmem q).2 hq') hc,
+    fun h p q hp' hq' hc => h p q ((hmem p).1 hp') ((hmem q).1 hq') hc⟩
+
+example : exList.Perm [rC, rA, rB] ∧ fragB exList = true := ⟨by decide, by decide +kernel⟩
+
+/-- **`agg_idempotent`** (fragment, FULL): after a successful aggregation, aggregating any of the
+contributors once more succeeds and leaves every requirement's merged import the same type (up
+to the order of exports). -/
+theorem agg_idempotent (cs : List Req) (hf : fragB cs = true) (A : AggState)
+    (h : aggregateAll cs Agg.empty = .ok A) (r : Req) (hr : r ∈ cs) :
+    ∃ A', aggregate r.1 r.2.1 r.2.2 A = .ok ((), A') ∧
+      ∀ q, q ∈ cs → ∀ m m', MergedTree A q.1 m → MergedTree A' q.1 m' → sub m m' = true ∧ sub m' m = true := by
+  have hG := frag_invariant cs hf A h
+  obtain ⟨hall, hpw⟩ := fragB_spec hf
+  obtain ⟨G, hmem, hfG⟩ := mem_withForests (fun r hr => (hall r hr).1) hr
+  have hmem0 : (r, G) ∈ (withForests cs).reverse := by simpa using hmem
+  have hcfg : A.cfg.remapReplaced = true := by rw [frag_invariant_cfg cs hf A h]; rfl
+  have hcompat := (fails_iff_incompatible cs hf).1.1 ⟨A, h⟩
+  obtain ⟨_, hiff⟩ := aggregate_total hG hcfg (flatForest_spec hfG).1 ⟨r, hr, rfl⟩
+    (fun hn => absurd (List.mem_map.2 ⟨(r, G), hmem0, rfl⟩) hn)
+  obtain ⟨A', hA'⟩ := hiff.2 (fun q hq hc => hcompat (r, G) q hmem (by simpa using hq) hc)
+  exact ⟨A', hA', fun q hq m m' hm hm' => agg_idempotent_partial cs hf A A' h r hr hA' q hq m m' hm hm'⟩
 
 /-! ### outside the fragment: `type` exports of interface type (finding 8 of notes/C09.md) -/
 
